@@ -32,6 +32,7 @@ def strip(b):
 
 class C09(C06):
     ID = "C09"
+    EXTRA_MODULES = []
     LEMMA_FILES = ["FluentProofs/ResolverIso.lean", "FluentProofs/ResolverIso2.lean", "FluentProofs/ResolverIso3.lean", "FluentProofs/ResolverIso4.lean", "FluentProofs/ResolverIso5.lean", "FluentProofs/ConstTieResolver.lean"]
     RULE = ("every GR / bomb / hand-written bundle formatted twice on one line: isolation off and isolation on (same "
             "resources, functions, requests; texts and arguments never contain FSI/PDI). Non-trivial = the isolating output "
